@@ -139,9 +139,12 @@ econf_err getStringValueNum(econf_file key_file, size_t num, char **result) {
 
 econf_err getBoolValueNum(econf_file key_file, size_t num, bool *result) {
   char *value, *tmp;
-  tmp = strdup(key_file.file_entry[num].value);
+  /* work on a copy: the stored value must not be changed by a query */
+  tmp = strdup(key_file.file_entry[num].value ? key_file.file_entry[num].value : "");
+  if (tmp == NULL)
+    return ECONF_NOMEM;
   value = toLowerCase(tmp);
-  size_t hash = hashstring(toLowerCase(key_file.file_entry[num].value));
+  size_t hash = hashstring(value);
   econf_err err = ECONF_SUCCESS;
 
   if ((*value == '1' && strlen(tmp) == 1) || hash == YES || hash == TRUE)
